@@ -439,6 +439,7 @@ impl<'a> Model for M<'a> {
                         // dynexec/exec of a procedure from inside a dyn frame keeps the root below acc: fine
                         && !(matches!(k, FrameKind::Syscall) && frames.is_empty() && false)
                 }
+                Act::Caller => in_sys,
                 Act::LocStore(i) | Act::LocLoad(i) | Act::LocStoreW(i) | Act::LocLoadW(i) => cur.map(|c| *i < c.1).unwrap_or(false),
                 _ => true,
             })
